@@ -5,6 +5,7 @@ The other rules treat `VClock::get`, `VClock::is_empty`, `Node::hash`, .. as pri
 (common.PRIMITIVES); these rules are what discharges that assumption on the current tree."""
 from ..core import rule
 from ..terms import drop_lv
+from ..ordset import cmp_parts
 from .common import *
 from .loops import loops_of, accumulates, item_derived, peel
 
@@ -412,7 +413,7 @@ def cmp_provided(ctx):
     operator (lt, le, gt, ge, max, min, clamp) that is overridden must be evaluable from that one place and agree with it."""
     facts = ctx.facts
     want = {'lt': {LT}, 'le': {LT, EQ}, 'gt': {GT}, 'ge': {GT, EQ}}
-    for im in facts.impls:
+    for im in sorted(facts.impls, key=lambda i: (i.get('trait') or '').endswith('PartialOrd')):   # Ord before PartialOrd
         tr = (im.get('trait') or '').split('::')[-1]
         if im.get('is_trait_def') or im.get('derived') or tr not in ('PartialOrd', 'Ord') or not str(im.get('self_key', '')).startswith('crdts::'):
             continue
@@ -420,6 +421,49 @@ def cmp_provided(ctx):
         names = [m.split('::')[-1] for m in im['methods']]
         extra = [n for n in names if n not in ('partial_cmp', 'cmp')]
         inst = '%s/%s' % (short, tr)
+        # a hand-written order on a plain struct that has no rule of its own (today: none; e.g. OrdDot if its derive were
+        # replaced): it must be a lexicographic comparison over ALL fields, so that Equal means equal and the order is total
+        if im['self_key'] not in (VCLOCK, DOT, IDENT):
+            adt = facts.adts.get(im['self_key'])
+            mname = 'cmp' if tr == 'Ord' else 'partial_cmp'
+            mb = [m for m in im['methods'] if m.endswith('::' + mname)]
+            if adt is not None and adt['kind'] == 'struct' and mb and facts.by_uid.get(mb[0]) is not None:
+                import itertools
+                b = facts._v(facts.by_uid[mb[0]])
+                ctx.analysed.add(b.key)
+                flds = [f['name'] for f in adt['variants'][0]['fields']]
+
+                def fcls(a, b_, t):
+                    pa, pb = value_path(drop_lv(a)), value_path(drop_lv(b_))
+                    if pa and pb and {pa[0], pb[0]} == {1, 2} and pa[1] == pb[1]:
+                        if len(pa[1]) == 1 and pa[1][0] in flds:
+                            return ('f_' + pa[1][0], 'fwd' if pa[0] == 1 else 'rev')
+                        if pa[1] == () and cmp_parts(t)[0] == 'cmp' and mname == 'partial_cmp':
+                            return ('whole', 'fwd' if pa[0] == 1 else 'rev')   # Some(self.cmp(other))
+                    return None
+                # the type's own total order, when partial_cmp defers to it: the derived one is lexicographic in declaration order
+                whole = getattr(ctx, '_ord_tables', {}).get(im['self_key'])
+                table = {}
+                for combo in itertools.product(TOTAL, repeat=len(flds)):
+                    asm = {'f_' + f: o for f, o in zip(flds, combo)}
+                    w = whole[combo] if whole is not None else next((o for o in combo if o != EQ), EQ)
+                    if w is not None:
+                        asm['whole'] = w
+                    v = closure_value(facts, b, classify=fcls, assumption=asm)
+                    if isinstance(v, tuple) and v[0] == 'optord':
+                        v = ('ord', v[1])
+                    table[combo] = v[1] if isinstance(v, tuple) and v[0] == 'ord' else None
+                lex_ok = False
+                for perm in itertools.permutations(range(len(flds))):
+                    if all(table[c] == next((c[i] for i in perm if c[i] != EQ), EQ) for c in table):
+                        lex_ok = True
+                if mname == 'cmp':
+                    if not hasattr(ctx, '_ord_tables'):
+                        ctx._ord_tables = {}
+                    ctx._ord_tables[im['self_key']] = table
+                ctx.check(lex_ok and len(flds) <= 4, inst + '/' + mname, b, 'a lexicographic order over every field (%s)' % ', '.join(flds),
+                          'the hand-written %s of %s is not a lexicographic comparison over all of its fields: two different values can '
+                          'compare Equal, or the order is not total' % (mname, short), fnkey=im['self_key'])
         if not extra:
             ctx.ok(inst, None, 'only %s is defined; the operators are the provided ones' % ('partial_cmp' if tr == 'PartialOrd' else 'cmp'),
                    fnkey=im['self_key'], nontrivial=False)
